@@ -1,5 +1,6 @@
 // C16 -- averages are valid, stationary and equivariant.
 #include "vf_manif.h"
+#include <cstring>
 #include <algorithm>
 #include <vector>
 
@@ -77,7 +78,22 @@ vf::Outcome run_case(const vf::Case& c, const vf::RunCtx& ctx) {
       k.label("empty set");
       return k.o;
     }
+    // call history made explicit, so that every case (and its replay in a fresh process) is a two-call history: the same
+    // routine is first run on a set of a different size (2 points, or the set repeated four times when it has fewer than 4)
+    // and that result is discarded; the routines are pure, so this must not influence the call under test
+    std::vector<GroupT> primer;
+    if (n >= 4) primer.assign(pts.begin(), pts.begin() + 2);
+    else for (int r = 0; r < 4; ++r) primer.insert(primer.end(), pts.begin(), pts.end());
+    try { const GroupT pm = run_avg(rt, primer); (void)pm; } catch (const std::exception&) {}
     const GroupT m = run_avg(rt, pts);   // returning at all = terminated within the iteration budget
+    {
+      // ... and a different earlier call gives the same result bit for bit
+      std::vector<GroupT> primer2(pts.begin(), pts.begin() + (n >= 2 ? n - 1 : 1));
+      primer2.push_back(G); primer2.push_back(H);
+      try { const GroupT pm = run_avg(rt, primer2); (void)pm; } catch (const std::exception&) {}
+      const GroupT m_again = run_avg(rt, pts);
+      k.require("history independent:" + rn, std::memcmp(m.data(), m_again.data(), R * sizeof(Scalar)) == 0, rn + ": the result depends on the calls made before (state kept between calls)");
+    }
     k.require("finite:" + rn, all_finite(m.coeffs()), rn + ": non-finite result");
     if (!all_finite(m.coeffs())) return k.o;
     k.bound("valid:" + rn, (double)rot_norm_dev(s, toVL(m.coeffs())), (double)manif::Constants<Scalar>::eps, rn + ": result is not a valid element");
